@@ -226,6 +226,7 @@ harnesses! {
     e2n_c02_battery [native 0] => c02::c02_battery;
     e2n_c02_wrappers [native 0] => c02::c02_wrappers;
     e2n_c02_text_battery [native 0] => c02::c02_text_battery;
+    e2n_c02_text [native 0] => c02::c02_text;
     c02_hash_from_bytes [stub 36] => c02k::hash_from_bytes;
     c11_enc_base [stub 4] => c11::enc_base;
     c11_enc_enterprise [stub 4] => c11::enc_enterprise;
